@@ -358,3 +358,43 @@ def blob(name):
 
 def repo_file(rel):
     return open(os.path.join(yvbuild.REPO, rel), "rb").read()
+
+
+def space_exe(variant):
+    return yvbuild.link(variant, "space", [os.path.join(H, "space.c"), os.path.join(H, "yvcommon.c")])
+
+
+class Space:
+    """driver of harness/space.c (program x buffer-space loops against the reference matchers)"""
+    def __init__(self, variant="plain"):
+        env = dict(os.environ); env.update(ASAN_ENV)
+        self.variant = variant
+        self.p = subprocess.Popen([space_exe(variant)], stdin=subprocess.PIPE, stdout=subprocess.PIPE, stderr=subprocess.PIPE, env=env)
+        self.spacecmds = []
+
+    def send(self, line):
+        self.p.stdin.write((line + "\n").encode()); self.p.stdin.flush()
+        ln = self.p.stdout.readline()
+        if not ln:
+            rc = self.p.wait()
+            err = self.p.stderr.read().decode(errors="replace")[-4000:]
+            raise WorkerDied(line, rc, err)
+        return json.loads(ln)
+
+    def space(self, line):
+        self.spacecmds.append(line)
+        return self.send(line)
+
+    def restart(self):
+        try: self.p.kill(); self.p.wait()
+        except Exception: pass
+        cmds = self.spacecmds
+        self.__init__(self.variant)
+        for c in cmds:
+            self.space(c)
+
+    def close(self):
+        try:
+            self.p.stdin.close(); self.p.wait(timeout=5)
+        except Exception:
+            self.p.kill()
